@@ -124,17 +124,36 @@ func c07Binding(c *Ctx, d *Dispatcher, rule string) {
 			}
 		}
 		c.R.Check(rule, "key-is-target-name", pos, keyOK, "the bound name must be the Value of the assignment's left identifier")
+		// values known to be the left operand where the binder is called: `v == left` tested on the way (a helper that
+		// looks through parentheses for its error message and then insists on `target == left`)
+		leftAlias := map[ssa.Value]bool{ssa.Value(left): true}
+		forEachTest(h, func(b *ssa.BasicBlock, in ssa.Instruction, tcond ssa.Value, conj bool) {
+			bo, ok := tcond.(*ssa.BinOp)
+			if !ok || bo.Op != token.EQL {
+				return
+			}
+			var other ssa.Value
+			switch {
+			case stripIface(bo.X) == ssa.Value(left):
+				other = stripIface(bo.Y)
+			case stripIface(bo.Y) == ssa.Value(left):
+				other = stripIface(bo.X)
+			default:
+				return
+			}
+			if t := b.Succs[0]; len(t.Preds) == 1 && (t == cs.Block() || t.Dominates(cs.Block())) {
+				leftAlias[other] = true
+			}
+		})
 		// guard 1: bare identifier
 		idGuard := false
 		var guardTests []ssa.Instruction
-		instrs(h, func(b *ssa.BasicBlock, i int, in ssa.Instruction) {
-			iff, ok := in.(*ssa.If)
-			if !ok {
-				return
-			}
-			cond := iff.Cond
+		forEachTest(h, func(b *ssa.BasicBlock, in ssa.Instruction, cond ssa.Value, conj bool) {
 			negated := false
 			if u, ok := cond.(*ssa.UnOp); ok && u.Op == token.NOT {
+				if conj {
+					return
+				}
 				cond, negated = u.X, true
 			}
 			isIdTest := false
@@ -144,7 +163,7 @@ func c07Binding(c *Ctx, d *Dispatcher, rule string) {
 					isIdTest = true
 				}
 			case *ssa.Extract:
-				if ta, ok := x.Tuple.(*ssa.TypeAssert); ok && x.Index == 1 && ta.X == ssa.Value(left) && typeName(ta.AssertedType) == "Identifier" {
+				if ta, ok := x.Tuple.(*ssa.TypeAssert); ok && x.Index == 1 && leftAlias[ta.X] && typeName(ta.AssertedType) == "Identifier" {
 					isIdTest = true
 				}
 			}
@@ -165,14 +184,12 @@ func c07Binding(c *Ctx, d *Dispatcher, rule string) {
 		c.R.Check(rule, "guard:bare-identifier", pos, idGuard, "the binder call must be dominated by the test that the assignment target is a bare identifier, whose failing edge returns an error")
 		// guard 2: `$` prefix on the same name
 		dollar := false
-		instrs(h, func(b *ssa.BasicBlock, i int, in ssa.Instruction) {
-			iff, ok := in.(*ssa.If)
-			if !ok {
-				return
-			}
-			cond := iff.Cond
+		forEachTest(h, func(b *ssa.BasicBlock, in ssa.Instruction, cond ssa.Value, conj bool) {
 			negated := false
 			if u, ok := cond.(*ssa.UnOp); ok && u.Op == token.NOT {
+				if conj {
+					return
+				}
 				cond, negated = u.X, true
 			}
 			call, ok := cond.(*ssa.Call)
@@ -194,6 +211,20 @@ func c07Binding(c *Ctx, d *Dispatcher, rule string) {
 				for _, rt := range rs {
 					if !(rt.Kind == "param" && rt.V == ssa.Value(left) && len(rt.Path) == 1 && rt.Path[0] == "Value") {
 						same = false
+					}
+				}
+				// the Value of the identifier asserted out of a value known to be the left operand
+				if !same && keyOK {
+					if u, isU := call.Call.Args[0].(*ssa.UnOp); isU && u.Op == token.MUL {
+						if fa, isFA := u.X.(*ssa.FieldAddr); isFA && fieldName(fa) == "Value" {
+							var tav ssa.Value = fa.X
+							if ex, isEx := tav.(*ssa.Extract); isEx && ex.Index == 0 {
+								tav = ex.Tuple
+							}
+							if ta, isTA := tav.(*ssa.TypeAssert); isTA && leftAlias[ta.X] && ta.X != ssa.Value(left) && typeName(ta.AssertedType) == "Identifier" {
+								same = true
+							}
+						}
 					}
 				}
 				if !same || len(rs) == 0 {
@@ -566,4 +597,59 @@ func c07NoDataWrites(c *Ctx) {
 		c.R.Add(rule, "scanned:"+c.P.FuncKey(f), c.P.Pos(f.Pos()), OK, "")
 	}
 	c.R.Floor(rule, 25)
+}
+
+// forEachTest calls f for every branch condition of h: for a plain `if c` once with c; for a condition that is a
+// short-circuit conjunction lowered to a value (`case a && b && c:` becomes a phi over the conjuncts) once per conjunct
+// with conj set - on the true edge of that branch every conjunct holds, the false edge is taken when any of them fails.
+func forEachTest(h *ssa.Function, f func(b *ssa.BasicBlock, in ssa.Instruction, cond ssa.Value, conj bool)) {
+	instrs(h, func(b *ssa.BasicBlock, i int, in ssa.Instruction) {
+		iff, ok := in.(*ssa.If)
+		if !ok {
+			return
+		}
+		cs := conjunctsOf(iff.Cond, 0)
+		if len(cs) <= 1 {
+			f(b, in, iff.Cond, false)
+			return
+		}
+		for _, cj := range cs {
+			f(b, in, cj, true)
+		}
+	})
+}
+
+// conjunctsOf: the conjuncts of a value produced by the lowering of `a && b && ...` (a phi commented "&&" whose edges
+// are the constant false, one per conjunct that can fail, and the value of the last conjunct); nil for anything else.
+func conjunctsOf(v ssa.Value, depth int) []ssa.Value {
+	phi, ok := v.(*ssa.Phi)
+	if !ok || phi.Comment != "&&" || depth > 6 {
+		return nil
+	}
+	var out []ssa.Value
+	for i, e := range phi.Edges {
+		pred := phi.Block().Preds[i]
+		if k, isK := e.(*ssa.Const); isK && k.Value != nil && k.Value.String() == "false" {
+			// the conjunct tested at the end of pred, whose false edge leads here
+			if len(pred.Instrs) == 0 {
+				return nil
+			}
+			iff, isIf := pred.Instrs[len(pred.Instrs)-1].(*ssa.If)
+			if !isIf || len(pred.Succs) != 2 || pred.Succs[1] != phi.Block() {
+				return nil
+			}
+			if sub := conjunctsOf(iff.Cond, depth+1); sub != nil {
+				out = append(out, sub...)
+			} else {
+				out = append(out, iff.Cond)
+			}
+			continue
+		}
+		if sub := conjunctsOf(e, depth+1); sub != nil {
+			out = append(out, sub...)
+		} else {
+			out = append(out, e)
+		}
+	}
+	return out
 }
